@@ -65,10 +65,11 @@ def backend_class(K: dict) -> type:
         add_escaped="\\",
         filter_chars="",
         bool_values={True: "true", False: "false"},
-        re_expression="{field}:re:/{regex}/{flag_i}{flag_m}{flag_s}",
+        # (K.reverb: a target that takes regular expressions verbatim - nothing to escape, delimiters that no expression contains)
+        re_expression="{field}:re:\u00a6{regex}\u00a6{flag_i}{flag_m}{flag_s}" if K.get("reverb") else "{field}:re:/{regex}/{flag_i}{flag_m}{flag_s}",
         re_escape_char="\\",
-        re_escape=["/"],
-        re_escape_escape_char=True,
+        re_escape=[] if K.get("reverb") else ["/"],
+        re_escape_escape_char=not K.get("reverb"),
         re_flag_prefix=False,
         re_flags={
             SigmaRegularExpressionFlag.IGNORECASE: "i",
@@ -102,7 +103,7 @@ def backend_class(K: dict) -> type:
         list_separator=", ",
         unbound_value_str_expression="KW:eq:{value}",
         unbound_value_num_expression="KW:eq:{value}",
-        unbound_value_re_expression="KW:re:/{value}/{flag_i}{flag_m}{flag_s}",
+        unbound_value_re_expression="KW:re:\u00a6{value}\u00a6{flag_i}{flag_m}{flag_s}" if K.get("reverb") else "KW:re:/{value}/{flag_i}{flag_m}{flag_s}",
         deferred_start=" | ",
         deferred_separator=" | ",
         deferred_only_query="*",
